@@ -10,6 +10,10 @@ CHECKS = {
          "Random structured search over identifier strings per type (grammar-derived, 1-2 edit mutants, 255/511/767-byte boundary constructions, unstructured) with an accept=>necessary / sufficient=>accept oracle written from the spec appendix, accessor recomposition, agreement of all parsing/serde forms, and constructor outputs re-parsed. Shrunk failures become replay files.",
          "Trusted: rustc/std (incl. Ipv6Addr parser), proptest, serde_json. Spec-silent gaps (ports 65536-99999, server-less room ids, empty localparts, over-long key algorithms) are counted, not asserted.",
          "DESIGN.md section 5 C10"),
+ "C13": ("vf-core", "model-based testing: bounded-exhaustive enumeration of operation sequences plus proptest random sequences against a Vec-per-kind placement model",
+         "Every operation sequence up to length 2 over the full alphabet (insert with every after/before anchor pair, remove, set_enabled, set_actions, reserved ids, default-rule targets) from the empty, the server-default and every populated arrangement of up to three rules, deeper sequences over a reduced alphabet, and random sequences up to 40 operations, each step compared with a model of the documented placement semantics; errors must leave the ruleset unchanged; panics are caught.",
+         "Trusted: rustc/std, proptest, the hand-written model (documented semantics in rustdoc of Ruleset::insert). Self-anchored inserts and overrides without a leading master rule are only partially asserted.",
+         "DESIGN.md section 5 C13"),
 }
 
 def entry(pid):
